@@ -108,7 +108,8 @@ def generate(seed: int, tier: str) -> dict:
             "wrap": None, "faults": None, "value_faults": rng.random() < 0.3}
     if rng.random() < 0.3:
         # (a byte-order mark or a non-ASCII comment in front: byte offsets and character offsets differ from there on)
-        case["wrap"] = {"kind": "wrap", "lead": rng.choice(["", "\n", "\n\n", "  ", "\t\n ", "\ufeff", "\ufeff\n", "# é☃\n"]), "trail": rng.choice(["", " ", "\n\n", "  \n", "\t"])}
+        case["wrap"] = {"kind": "wrap", "lead": rng.choice(["", "\n", "\n\n", "  ", "\t\n ", "\ufeff", "\ufeff\n", "# é☃\n", "#!/usr/bin/env nix\n"]),
+                        "trail": rng.choice(["", " ", "\n\n", "  \n", "\t", "\r\n", "\f", "\n\f\n"])}
     return case
 
 
@@ -166,6 +167,48 @@ def check_damaged(t: str, facts: dict, stats: dict, root: str, *, cli: bool) -> 
         if r.stdout or r.status == 0:
             out.append(Violation("C07.cli_edit", "`nima rm` on erroneous text: stdout %r status %d" % (r.stdout[-80:], r.status), None, facts))
         stats["cli_invocations"] = stats.get("cli_invocations", 0) + 3
+        raw = t.encode("utf-8")
+        with open(path, "rb") as fh:
+            if fh.read() != raw:
+                out.append(Violation("C07.file_touched", "the command line changed the erroneous file it was given", None, facts))
+        if not out:
+            # file-level API: parse_file + save (in place and to another path) writes back exactly the bytes read
+            from nix_manipulator import parse_file
+
+            other = os.path.join(root, "copy.nix")
+            try:
+                doc = parse_file(path)
+                doc.save()
+                doc.save(path=other)
+                with open(path, "rb") as fh:
+                    a = fh.read()
+                with open(other, "rb") as fh:
+                    b = fh.read()
+                if a != raw or b != raw:
+                    out.append(Violation("C07.save_not_verbatim", "parse_file + save of an erroneous file changed its bytes: %r -> %r / %r" % (raw[-40:], a[-40:], b[-40:]), None, facts))
+            except UnicodeDecodeError:
+                pass
+            except Exception as e:  # noqa: BLE001
+                out.append(Violation("C07.parse_crashed", "parse_file/save of an erroneous file raised %r" % (e,), None, facts))
+            stats["file_roundtrips"] = stats.get("file_roundtrips", 0) + 1
+        if not out:
+            # mapping-style access must refuse as well and leave the text alone
+            for what in ("get", "set", "del"):
+                try:
+                    if what == "get":
+                        src["a"]
+                    elif what == "set":
+                        src["a"] = 1
+                    else:
+                        del src["a"]
+                except Exception:  # noqa: BLE001
+                    pass
+                else:
+                    out.append(Violation("C07.edited_broken_source", "mapping %s on a text with a syntax error succeeded" % what, None, dict(facts, cmd="map_" + what)))
+                    break
+                if src.rebuild() != t:
+                    out.append(Violation("C07.refusal_mutated", "refused mapping %s changed the erroneous document" % what, None, dict(facts, cmd="map_" + what)))
+                    break
     return out
 
 
